@@ -116,7 +116,7 @@ VALIDATORS = {"bond": _bond, "token": _token, "masses": _masses, "dist": _dist}
 
 def _choose(driver):
     """the vector `choose_compatible_weight` hands to rng.choice against the pinned `chooseWeightsX`, for every weight vector of
-    length 1-4 over {0, 1/2, 1, 2, 3}: every pattern of equal / different / zero weights of that length occurs"""
+    length 1-4 over {0, 1e-9, 1/2, 1, 1.0000001, 2, 3}: every pattern of equal / different / zero weights of that length occurs"""
     import numpy as np
     import gbigsmiles
     import gbigsmiles.core as core
@@ -130,7 +130,7 @@ def _choose(driver):
         def choice(self, a, p=None, **kw):
             self.a, self.p = list(a), None if p is None else [float(x) for x in p]
             return list(a)[0]
-    vals = [0.0, 0.5, 1.0, 2.0, 3.0]
+    vals = [0.0, 1e-9, 0.5, 1.0, 1.0000001, 2.0, 3.0]       # also weights that are equal only up to a tolerance
     vecs = [v for n in range(1, 5) for v in itertools.product(vals, repeat=n)]
     outs = driver.run([{"op": "CHOOSEX", "ws": [frac(x) for x in v]} for v in vecs])
     bad = []
